@@ -136,4 +136,11 @@ CHECKS["C15"] = {
   "design_ref": "DESIGN.md §5 C15, §7",
   "note": "Thin use of the specification: it is the enumerator; the oracle is the identity. Bounded universe.",
 }
+CHECKS["C20"] = {
+  "level": "exploration",
+  "technique": "range arithmetic and Elixir struct-term shapes written in TLA+ (Elixir.tla, on top of the Etf.tla codec) and enumerated by TLC with anchored 64-bit positions; records replayed into the real wrappers (len / contains / iteration / from_term on built and on decoded terms); identity oracle for wrapper, builder and proplist round trips",
+  "text": "1598 ranges with bounds at min..min+5, -3..3, max-5..max and steps incl. 0, min, max (+6 cross-anchor rows): len, size_hint, is_empty, iteration and membership must agree with the spec's element list; 160 valid Date/Time/Range struct terms (also decoded from the spec's encoding, wide integers in big form) must give their fields and 35 mutated ones (missing key, wrong module, wrong shape, wrong type, value not fitting the field) must be rejected; 31 wrapper values, 8 builder sizes and 6 proplists must survive term and wire round trips.",
+  "design_ref": "DESIGN.md §5 C20, §7",
+  "note": "Bounded universe; date-time / map-set / exception / builder values are a fixed boundary list. Two defects fixed (52c837a range overflow, 875107e field narrowing).",
+}
 NOT_APPLICABLE = {}
